@@ -4,7 +4,7 @@ import random
 
 from .. import cdrive, common, drive, gen, prog as P, render, rewrite, tlc
 from ..report import Report
-from . import comptrace, cwire, pywire
+from . import comptrace, cwire, pywire, ufull
 
 
 def encode_py(pr, t, values, d):
@@ -57,9 +57,18 @@ def main(tier, replay=None):
     with common.Scratch("c12") as scratch:
         # ---- build chains, render every version, ask the specification for the resolved types ----
         ctraces, cmeta = [], []
-        for k in range(nchains):
+        # directed bases next to the random ones: one leaf type held as scalar, aliased scalar, array element and
+        # aliased array at every bit offset (U_full of C14), for widths around the storage sizes -- rewrites that
+        # introduce / inline aliases act on exactly the positions where an alias must be transparent
+        wide = [{"k": "uint", "n": 33}, {"k": "int", "n": 40}, {"k": "uint", "n": 64}, {"k": "int", "n": 64},
+                {"k": "int", "n": 24}, {"k": "uint", "n": 17}, {"k": "int", "n": 7}, {"k": "bool"}]
+        directed = wide[:4] if tier == "quick" else wide
+        for k in range(nchains + len(directed)):
             rng = random.Random("c12/%d/%d" % (seed, k))
-            base, _ = gen.rand_case(seed, 170000 + k, max_bits=rng.choice([60, 300, 1000]), consts=True)
+            if k >= nchains:
+                base = ufull.ufull_prog(directed[k - nchains], cap=2)
+            else:
+                base, _ = gen.rand_case(seed, 170000 + k, max_bits=rng.choice([60, 300, 1000]), consts=True)
             ch = rewrite.chain(base, rng, rng.randint(1, nsteps))
             vals0 = [gen.gen_value(rng, base["rtype"], "ones")] + [gen.gen_value(rng, base["rtype"], "rand")
                                                                   for _ in range(nvals - 1)]
@@ -158,7 +167,7 @@ def main(tier, replay=None):
                         rep.count("c_versions_not_proposed_flat_name_collision")
                         break
                     usable.append(v)
-                if len(usable) < 2 or (k % 2 and tier == "quick"):
+                if len(usable) < 2 or (k % 2 and tier == "quick" and k < nchains):
                     continue
                 # traditional mode is a property of the whole text (a marker on a definition Top never uses counts)
                 trad = all("'" not in txt for v in usable for txt in (v["pr"].get("_texts") or {"": "'"}).values())
@@ -189,6 +198,18 @@ def main(tier, replay=None):
                 prev[k] = ver
                 cc.note = {"steps": [v["descr"] for v in chains[k][:chains[k].index(ver) + 1]], "mode": ver.get("cmode")}
             pywire.validate_and_decide(rep, ccases, count_events=("CEncode",))
+            # the portable (big-endian) branch of the -O encoders is value based and runs on this host: the same
+            # traditional versions, built with -DBP_BIG_ENDIAN
+            be_items = [(cc, m) for cc, m in zip(ccases, cmeta2) if m[2]]
+            if be_items:
+                bbuilder = cdrive.CBuilder(scratch, cflags=("-O1",), defines=("BP_BIG_ENDIAN",))
+                bcases = [cwire.CCase(cc.cid + "-be", cc.prog, cc.values) for cc, _ in be_items]
+                for (bc, lib), (cc, m) in zip(cwire.prepare(bcases, scratch, bbuilder, optimize=True), be_items):
+                    if lib is not None:
+                        cwire.drive_case(bc, lib, worker, want=("enc",))
+                    bc.note = dict(cc.note or {}, mode="c -O -DBP_BIG_ENDIAN")
+                    rep.feature("c -O big-endian branch")
+                pywire.validate_and_decide(rep, bcases, count_events=("CEncode",))
         finally:
             worker.close()
     rep.cov["traces_validated_against_impl"] = len(wtraces)
